@@ -34,7 +34,13 @@ impl Timestamp {
     let offset_date_time = OffsetDateTime::parse(input, &Rfc3339)
       .map_err(time::Error::from)
       .map_err(Error::InvalidTimestamp)?
-      .to_offset(UtcOffset::UTC);
+      .checked_to_offset(UtcOffset::UTC)
+      // Reject instants whose UTC year is outside of the range 0000AD - 9999AD per Rfc3339,
+      // as `from_unix` does, to prevent conversion errors in to_rfc3339().
+      .filter(|offset_date_time| (0..10_000).contains(&offset_date_time.year()))
+      .ok_or(Error::InvalidTimestamp(time::error::Error::Format(
+        time::error::Format::InvalidComponent("invalid year"),
+      )))?;
     Ok(Timestamp(truncate_fractional_seconds(offset_date_time)))
   }
 
